@@ -171,7 +171,13 @@ def finish(ctx, prop):
 
 
 def run_c04(ctx, replay=None):
-    run_prop(ctx, "C04", replay)
+    fam = json.load(open(replay)).get("family") if replay else None
+    if fam != "index_snapshots":
+        run_prop(ctx, "C04", replay)
+    if not replay or fam == "index_snapshots":
+        # the repository's OWN multi-peer tests, index snapshots judged by MonIndexSnap.tla
+        import index_traces
+        index_traces.run_part(ctx)
     return finish(ctx, "C04")
 
 
